@@ -92,6 +92,10 @@ func TestC14(t *testing.T) {
 				if ageS < 0 {
 					ageS = 0
 				}
+				if rng.Intn(12) == 0 {
+					// newest trusted state ahead of the block time (a header up to 15 s in the future is acceptable): well inside the period
+					ageS = -int64(1 + rng.Intn(30))
+				}
 				sub := pickSub(rng)
 				h := clienttypes.NewHeight(0, uint64(10+rng.Intn(1000)))
 				name := "otherchain"
@@ -131,6 +135,8 @@ func TestC14(t *testing.T) {
 					bcase = "adjacent"
 				case ageS > periodS:
 					bcase = "past"
+				case ageS < 0:
+					bcase = "state-ahead-of-block-time"
 				}
 				rec.Judge("status/"+tname, bcase, sub == 0, sub == 999_999_999, want, periodS < 10)
 				if want == "" {
